@@ -1,0 +1,10 @@
+//go:build verif
+
+package shell_operator
+
+// VerifInitValidatingWebhookManager exposes initValidatingWebhookManager — which installs
+// the admission event handler on AdmissionWebhookManager — to the verification harness.
+// Add-only; built with -tags verif only.
+func (op *ShellOperator) VerifInitValidatingWebhookManager() error {
+	return op.initValidatingWebhookManager()
+}
